@@ -152,18 +152,6 @@ func runC02(c *kit.Ctx) {
 	// the cells delivered to a caller alias the frame buffer of its response: that buffer must not be recycled
 	{
 		noResponseBufferRecycling(c)
-		// the frame buffer of a response is allocated per frame
-		fresh := false
-		kit.Instrs(recv, func(in ssa.Instruction) {
-			call, ok := in.(*ssa.Call)
-			if !ok || kit.CalleeName(call) != "io.ReadFull" {
-				return
-			}
-			if mk, ok := kit.Root(call.Call.Args[1]).(*ssa.MakeSlice); ok && mk.Parent() == recv {
-				fresh = true
-			}
-		})
-		c.Check(fresh, recv, "frame-buffer-per-response", recv.Pos(), "every response frame is read into a buffer allocated for it", "response frames are read into a shared or pooled buffer: results still held by callers are overwritten by later responses")
 	}
 
 	// ---- R4 ---------------------------------------------------------------
@@ -284,6 +272,8 @@ func runC02(c *kit.Ctx) {
 	// ---- R5 ---------------------------------------------------------------
 	c.StartRule("R5", "region-exception fan-out", 2)
 	clearedCallSlotsAreSkipped(c)
+	multiSuccessOnlyWithoutError(c)
+	regionExceptionUnchanged(c)
 	{
 		// same index for ra[i] and m.regions[i]; same map key r
 		var raStore, regStore *ssa.Store
@@ -593,6 +583,21 @@ func runC02(c *kit.Ctx) {
 // buffers go back to the pool only at the request-side sites of the table. Shared by C02.R3 and C15.R2.
 func noResponseBufferRecycling(c *kit.Ctx) {
 	p := c.P
+	decompressedBufferIsFresh(c)
+	if recv := p.Func("region", "client", "receive"); recv != nil {
+		// the frame buffer of a response is allocated per frame
+		fresh := false
+		kit.Instrs(recv, func(in ssa.Instruction) {
+			call, ok := in.(*ssa.Call)
+			if !ok || kit.CalleeName(call) != "io.ReadFull" {
+				return
+			}
+			if mk, ok := kit.Root(call.Call.Args[1]).(*ssa.MakeSlice); ok && mk.Parent() == recv {
+				fresh = true
+			}
+		})
+		c.Check(fresh, recv, "frame-buffer-per-response", recv.Pos(), "every response frame is read into a buffer allocated for it", "response frames are read into a shared or pooled buffer: results still held by callers are overwritten by later responses")
+	}
 	allowed := map[string]string{
 		"(*region.client).send":                   "the compressed request buffer, after it was written",
 		"(*region.compressor).compressCellblocks": "the scratch chunk buffer of the compressor",
